@@ -445,6 +445,33 @@ def run_plan(rep, plan, scenarios, opts, workers=None, canaries=()):
         rep.note_sample({"scenario": tag, "paths": res.paths, "obligations": {f"{k[0]}:{k[1]}": v for k, v in res.oblig.items()}})
 
 
+def run_crosshair(rep, name, per_condition_timeout=40):
+    """Second engine (CrossHair 0.0.110) on the PEP316 twin `qverif/crosshair/<name>.py`.  Recorded in the
+    evidence; 'Not confirmed' / 'Unable to meet precondition' are inconclusive cross-checks and do not
+    change the verdict; a CrossHair counterexample on code that symx passed is a harness error."""
+    path = os.path.join(ROOT, "qverif", "crosshair", name + ".py")
+    env = dict(os.environ)
+    env["PYTHONDONTWRITEBYTECODE"] = "1"
+    t0 = time.time()
+    try:
+        p = subprocess.run([PY, "-m", "crosshair", "check", "--report_all", "--per_condition_timeout", str(per_condition_timeout), path], cwd=ROOT, env=env, capture_output=True, text=True, timeout=per_condition_timeout * 6 + 60)
+        out = p.stdout + p.stderr
+    except subprocess.TimeoutExpired:
+        out = "timeout"
+    if "Confirmed over all paths" in out:
+        verdict = "confirmed over all paths"
+    elif "error:" in out:
+        verdict = "counterexample"
+        rep.harness_errors.append(f"CrossHair twin {name} reports a counterexample that symx did not: " + [l for l in out.splitlines() if "error:" in l][0][-200:])
+    elif "Not confirmed" in out:
+        verdict = "not confirmed (inconclusive cross-check)"
+    elif "Unable to meet precondition" in out:
+        verdict = "unable to meet precondition (inconclusive cross-check)"
+    else:
+        verdict = "no verdict (" + out.strip()[-80:] + ")"
+    rep.crosshair.append({"twin": name, "verdict": verdict, "per_condition_timeout_s": per_condition_timeout, "wall_s": round(time.time() - t0, 1)})
+
+
 def _random_witness(base, seed):
     import random
 
